@@ -2,10 +2,10 @@
   NO-PANIC, part 5: error recovery (`sort_active_edges` with its merge-vertex fix-up `swapBack`,
   `recover_from_error`).
 
-  * `swapBack`: the indices `idx`, `idx - 1` are in range (`mEdgeIdx` unreachable here); what CAN
-    happen is `idx - 1` underflowing when no prefix of the re-sorted active list has an `in`
-    winding (`mSub`): REACHABLE on finite input, on the real tessellator too
-    (findings.d/C01.json `C01-sort-active-edges-merge-underflow`);
+  * `swapBack`: the indices `idx`, `idx - 1` are in range (`mEdgeIdx` unreachable here); when no
+    prefix of the re-sorted active list has an `in` winding the loop reaches `idx == 0`: since lyon
+    747d7f78 that is `Err(Internal(MergeVertexOutside))` (before: `idx - 1` underflowed - a panic
+    REACHABLE on finite input, finding `C01-sort-active-edges-merge-underflow`, fixed);
   * `partial_cmp(..).unwrap()` (`mNaN`) is unreachable for a scalar type without NaN (`hNaN`);
   * `recover_from_error`: `begin_span` is only called with `span_index == spans.len()` (`mSpanIns`
     unreachable here) and the surplus spans popped are live (`mDead` unreachable).
@@ -48,7 +48,8 @@ theorem swapBack_size (rule : Slab.Rule) : ∀ (f : Nat) (a : Array (ActiveEdge 
       · cases e
 
 theorem swapBack_err (rule : Slab.Rule) : ∀ (f : Nat) (a : Array (ActiveEdge α)) (idx : Nat) (w : Int)
-    (e : Fail), idx < a.size → swapBack rule f a idx w = .error e → e = .fuel ∨ e = .panic mSub
+    (e : Fail), idx < a.size → swapBack rule f a idx w = .error e →
+      e = .fuel ∨ e = .err "Internal(MergeVertexOutside)"
   | 0, a, idx, w, e, _, h => by simp [swapBack] at h; exact Or.inl h.symm
   | f+1, a, idx, w, e, hi, h => by
     simp only [swapBack] at h
@@ -73,7 +74,7 @@ theorem anyNaN_false (h : NoNaN α) (keys : Array (α × Nat)) : anyNaNKey keys 
   unfold anyNaNKey
   simp [h _]
 
-theorem sortActiveEdges_safe (hS : mSub ∈ A) (hNaN : NoNaN α ∨ mNaN ∈ A) :
+theorem sortActiveEdges_safe (hNaN : NoNaN α ∨ mNaN ∈ A) :
     ⦃fun s => ⌜Safe tol s⌝⦄ (sortActiveEdges : SM α Unit) ⦃safePost A fun _ s => Safe tol s⦄ := by
   unfold sortActiveEdges
   strip_mdata
@@ -102,7 +103,7 @@ theorem sortActiveEdges_safe (hS : mSub ∈ A) (hNaN : NoNaN α ∨ mNaN ∈ A) 
       rcases Array.getElem?_eq_some_iff.mp hget with ⟨hh, _⟩; exact hh
     rcases swapBack_err _ _ _ _ _ _ hlt hx with e | e
     · rw [e]; exact allowed_fuel
-    · rw [e]; exact allowed_panic hS
+    · rw [e]; exact allowed_err _
   case vc16 =>
     refine ⟨by assumption, ?_⟩
     rw [range_length]; simp
@@ -144,12 +145,12 @@ theorem upd_eq {w : WindingState} {r : Slab.Rule} {k : Int} {m : Int}
   · omega
   · omega
 
-theorem recoverFromError_safe (hS : mSub ∈ A) (hNaN : NoNaN α ∨ mNaN ∈ A) :
+theorem recoverFromError_safe (hNaN : NoNaN α ∨ mNaN ∈ A) :
     ⦃fun s => ⌜Safe tol s⌝⦄ (recoverFromError : SM α Unit) ⦃safePost A fun _ s => Safe tol s⦄ := by
   unfold recoverFromError
   strip_mdata
   have h1 := mark_safeS (α := α) (tol := tol) (A := A)
-  have h2 := sortActiveEdges_safe (α := α) (tol := tol) (A := A) hS hNaN
+  have h2 := sortActiveEdges_safe (α := α) (tol := tol) (A := A) hNaN
   have h3 := beginSpan_at_end (α := α) (tol := tol) (A := A)
   mvcgen [mark, emitTris, h2, h3] invariants
   · post⟨fun r s => ⌜Safe tol s ∧ r.2.spanIndex < (s.spans.size : Int)⌝, fun f _ => ⌜Allowed A f⌝⟩
